@@ -4,6 +4,7 @@ go 1.23
 
 require (
 	github.com/anishathalye/porcupine v1.3.0
+	github.com/ftrvxmtrx/fd v0.0.0-20150925145434-c6d800382fff
 	github.com/lugu/qiloop v0.0.0
 	pgregory.net/rapid v1.3.0
 )
@@ -11,7 +12,6 @@ require (
 require (
 	github.com/dave/jennifer v1.7.0 // indirect
 	github.com/denisbrodbeck/machineid v1.0.1 // indirect
-	github.com/ftrvxmtrx/fd v0.0.0-20150925145434-c6d800382fff // indirect
 	github.com/prataprc/goparsec v0.0.0-20211219142520-daac0e635e7e // indirect
 )
 
